@@ -5,7 +5,7 @@
 From Coq Require Import List NArith ZArith Bool Ring Reals Lra.
 From Coquelicot Require Import Complex.
 From QI Require Import Base.ListAux Base.Scalar Model.Outcome Model.Gates Model.OpSeq Model.StateOps Model.StateCtor
-  Proofs.C12a Proofs.C12b Proofs.C12c Run.RInst Run.ZInst.
+  Proofs.C12a Proofs.C12b Proofs.C12c Proofs.C12d Run.RInst Run.ZInst.
 Import ListNotations.
 Open Scope N_scope.
 
@@ -125,6 +125,37 @@ Theorem C12_hartree_fock_index : forall e o q, e <= o -> q < o ->
   (2 ^ e - 1) * 2 ^ (o - e) < 2 ^ o /\ N.testbit ((2 ^ e - 1) * 2 ^ (o - e)) q = (o - e <=? q).
 Proof. intros e o q H Hq. split; [now apply hartree_fock_index|now apply hartree_fock_bits]. Qed.
 Print Assumptions C12_basis_vector. Print Assumptions C12_hartree_fock_index.
+
+(* every built-in constructor returns a NORMALISED state with the named amplitudes, at every size (over the reals;
+   of_N_R is the cast `dim as f64`, h the constant 1/sqrt 2 with 2 h^2 = 1):  |0..0>, |k>, |+..+> (all amplitudes
+   1/sqrt(2^n)), |-..-> (the same with sign (-1)^(number of 1 bits of the index)), GHZ, Hartree-Fock, the Bell states *)
+Theorem C12_new_zero_normalised : forall n st, new_zero rops n = Ok st ->
+  nq st = n /\ norm2_vec rops (vec st) = 1%R /\ vec st = basis_vec rops (2 ^ n) 0.
+Proof. exact new_zero_normalised. Qed.
+Theorem C12_new_basis_n_normalised : forall n k st, new_basis_n rops n k = Ok st ->
+  nq st = n /\ norm2_vec rops (vec st) = 1%R /\ vec st = basis_vec rops (2 ^ n) k /\ k < 2 ^ n.
+Proof. exact new_basis_n_normalised. Qed.
+Theorem C12_new_plus_normalised : forall n st, new_plus rops of_N_R n = Ok st ->
+  nq st = n /\ norm2_vec rops (vec st) = 1%R /\ vec st = map (fun _ => (1 / sqrt (of_N_R (2 ^ n)), 0)%R) (Nrange (2 ^ n)).
+Proof. exact new_plus_normalised. Qed.
+Theorem C12_new_minus_normalised : forall n st, new_minus rops of_N_R n = Ok st ->
+  nq st = n /\ norm2_vec rops (vec st) = 1%R /\
+  vec st = map (fun i => if N.even (popcount i) then (1 / sqrt (of_N_R (2 ^ n)), 0)%R else cneg rops (1 / sqrt (of_N_R (2 ^ n)), 0)%R) (Nrange (2 ^ n)).
+Proof. exact new_minus_normalised. Qed.
+Theorem C12_popcount_is_number_of_ones : forall n k, k < 2 ^ N.of_nat n -> popcount k = ones k n.
+Proof. exact popcount_is_number_of_ones. Qed.
+Theorem C12_new_ghz_normalised : forall h n st, (2 * (h * h) = 1)%R -> new_ghz rops h n = Ok st ->
+  nq st = n /\ norm2_vec rops (vec st) = 1%R /\
+  forall k, k < 2 ^ n -> get (c0 rops) (vec st) k = if (k =? 0) || (k =? 2 ^ n - 1) then (h, 0%R) else (0%R, 0%R).
+Proof. exact new_ghz_normalised. Qed.
+Theorem C12_new_hartree_fock_normalised : forall e o st, new_hartree_fock rops e o = Ok st ->
+  nq st = o /\ norm2_vec rops (vec st) = 1%R /\ vec st = basis_vec rops (2 ^ o) ((2 ^ e - 1) * 2 ^ (o - e)).
+Proof. exact new_hartree_fock_normalised. Qed.
+Theorem C12_bell_states_orthonormal : forall h, (2 * (h * h) = 1)%R -> forall j k, j < 4 -> k < 4 ->
+  inner_vec rops (vec (bell rops h j)) (vec (bell rops h k)) = if j =? k then (1%R, 0%R) else (0%R, 0%R).
+Proof. exact bell_orthonormal. Qed.
+Print Assumptions C12_new_plus_normalised. Print Assumptions C12_new_minus_normalised. Print Assumptions C12_new_ghz_normalised.
+Print Assumptions C12_bell_states_orthonormal. Print Assumptions C12_popcount_is_number_of_ones.
 
 Example C12_nonvacuous :
   let a := [(1, 2); (0, -1)]%Z in let b := [(3, 0); (1, 1); (2, -2); (0, 5)]%Z in let c := [(1, 1); (2, 0)]%Z in
